@@ -120,7 +120,8 @@ theorem square_spec (f : Fe) (hf : Loose f) :
     mul64_bind _ _ _ (by omega), mul64_bind _ _ _ (by omega), mul64_bind _ _ _ (by omega)]
   simp only [m38a, m38b, m19]
   simp only [m2]
-  rw [add128_bind _ _ _ (by omega), add128_bind _ _ _ (by omega), mul64_bind _ _ _ (by omega)]
+  rw [add128_bind _ _ _ (by omega), add128_bind _ _ _ (by omega), add128_bind _ _ _ (by omega),
+    mul64_bind _ _ _ (by omega)]
   simp only [m19]
   ck_steps
   change ∃ h, squareTail _ _ _ _ _ = some h ∧ _
